@@ -365,6 +365,11 @@ theorem inv_startStep (hwf : c.WF) (h : Inv c s) (hpc : s.pc 0 = Pc.gStart) : In
     | ready => exact inv_start_ready c s h hpc hs _
     | null => exact inv_start_cas c s h hpc
     | node => exact inv_start_cas c s h hpc
+  | callAwt =>
+    cases hs : s.slot with
+    | ready => exact inv_start_ready c s h hpc hs _
+    | null => exact inv_start_cas c s h hpc
+    | node => exact inv_start_cas c s h hpc
   | mkProm =>
     exact inv_contReg c _ (inv_start_mk c s hwf h hpc ha) (by simp)
   | discard => exact inv_casStep c _ (inv_start_cas c s h hpc) (by simp)
